@@ -16,3 +16,4 @@ CFG = dict(
      assumptions=["testing/synctest virtual time and Wait() are correct", "ttl > 0 (ttl <= 0 is a documented programmer-misuse panic)"],
      timeout_quick=300, timeout_thorough=2400)
 CFG["rule"] += ' Added after independently written breaking changes: Bulk sizes: entry counts around powers of two (to 1025; thorough to 8193) with every split of short/long TTLs through Cleanup, Delete and Reset.'
+CFG["rule"] += " TestStopDuringPeriodicPass: Stop called at the instant of a tick over 50k-300k expired entries; at Stop's return no goroutine started by the cache may still be inside Cleanup (census by creator and frame; non-trivial: Stop was called with a pass in flight)."
